@@ -84,10 +84,12 @@ def _universes(env, conf):
     return p
 
 
-def search_family(rep, env, conf, family, tier, what, keep=None, gt=True):
+def search_family(rep, env, conf, family, tier, what, keep=None, gt=True, max_calls=None):
     cfg = 'MC_Search_%s_%s%s.cfg' % (family, tier, '' if gt else '_nogt')
     calls = K.spec_to_code(rep, env, conf, 'MC_Search', cfg, what,
-                           transform=(lambda cs: [c for c in cs if (keep is None or keep(c))]))
+                           transform=(lambda cs: [c for c in cs if (keep is None or keep(c))]), max_calls=max_calls)
+    if max_calls:
+        rep.notes['replayed'] = 'TLC checked the whole family on the model; the quick tier replays a seeded sample of %d calls on the implementation (thorough replays all)' % max_calls
     uni = _universes(env, conf) if family != 'unfold' else ''
     K.code_to_spec(rep, env, conf, calls, what + ' executed on the implementation', tag=family,
                    extra={'SPIL_UNIVERSES': uni})
@@ -118,7 +120,8 @@ def check_C08(tier):
     rep = Report.get('C08', tier)
     env = Env()
     conf = extract_conf(env)
-    calls = search_family(rep, env, conf, 'findlist', tier, 'C08 family: searches without ">" x generated universes (complete / leaf-only / noisy)', gt=False)
+    calls = search_family(rep, env, conf, 'findlist', tier, 'C08 family: searches without ">" x generated universes (complete / leaf-only / noisy)', gt=False,
+                          max_calls=(15000 if tier == 'quick' else None))
     rep.exhaustive = True
     for t in ('findlist:star:found', 'findlist:star:nothing', 'findlist:error'):
         rep.guard(t in rep.cover or not calls, '%s never exercised' % t)
@@ -146,7 +149,7 @@ def check_C10(tier):
     env = Env()
     conf = extract_conf(env)
     calls = search_family(rep, env, conf, 'algebra', tier, 'C10 family: (search, derived searches) by the five rewrite rules',
-                          keep=lambda c: c.get('op') == 'algebra', gt=True)
+                          keep=lambda c: c.get('op') == 'algebra', gt=True, max_calls=(12000 if tier == 'quick' else None))
     rep.exhaustive = True
     for r in ('union:comma', 'union:alias', 'starstar', 'filter', 'literal'):
         rep.guard(any(t.startswith('algebra:' + r) for t in rep.cover) or not calls, 'rule %s never exercised' % r)
@@ -383,7 +386,9 @@ def check_C18(tier):
     hists = calls_from_dump(r.dumpfile, var='hist')
     depth = max(len(h) for h in hists)
     behaviours = [h for h in hists if len(h) == depth]
-    nsim, dsim = (60, 9) if tier == 'quick' else (600, 9)
+    nsim, dsim = (30, 9) if tier == 'quick' else (600, 9)
+    if tier == 'quick' and len(behaviours) > 320:
+        behaviours = random.Random(SEED).sample(behaviours, 320)
     rs, sims = _sim_behaviours('VersionDyn', 'VersionDyn_gen.cfg', conf, nsim, dsim)
     rep.add_tlc(rs, 'random publish sequences of up to 8 steps (-simulate num=%d)' % nsim)
     behaviours += [h for h in sims if h]
